@@ -6,7 +6,7 @@ V = os.path.dirname(os.path.dirname(os.path.abspath(__file__)))
 REPO = '/repo'
 # default: work on a scratch copy of /repo (other jobs may be reading /repo); SEED_INPLACE=1 patches /repo itself
 INPLACE = os.environ.get('SEED_INPLACE') == '1'
-WORK = REPO if INPLACE else '/tmp/seedtest-repo'
+WORK = REPO if INPLACE else '/tmp/seedtest-repo-%d' % os.getpid()    # per run: several runs may be active
 
 
 def sh(cmd, cwd=None, timeout=3000):
